@@ -4,11 +4,13 @@ package main
 // symbolic data; forking is done by re-execution from a decision prefix.
 
 import (
+	"crypto/sha256"
 	"fmt"
 	"go/constant"
 	"go/token"
 	"go/types"
 	"math/big"
+	"sort"
 	"strings"
 
 	"golang.org/x/tools/go/ssa"
@@ -82,6 +84,8 @@ type Exec struct {
 	tags       []tagCond
 	pcSet      map[string]bool
 	modelCtx   *bctx
+	memo       map[string]*Term
+	upgrade    bool
 	cuts       map[string][]*Term
 	funcsSeen  map[string]int
 
@@ -89,20 +93,24 @@ type Exec struct {
 }
 
 type PathResult struct {
-	Stop        pathStop
-	Obligations int
-	Discharged  int
-	Trivial     int
-	Inconcl     []string
-	CEs         []*CounterExample
-	Reached     []string
-	Steps       int
-	Decisions   []int
-	Summary     string
-	Funcs       map[string]int
-	Effects     []string
-	StageA      int
-	StageB      int
+	Stop         pathStop
+	Obligations  int
+	Discharged   int
+	Trivial      int
+	Inconcl      []string
+	CEs          []*CounterExample
+	Reached      []string
+	Steps        int
+	Decisions    []int
+	Summary      string
+	Funcs        map[string]int
+	Effects      []string
+	StageA       int
+	StageB       int
+	BoundedUnsat int
+	BoundedNA    int
+	CacheHits    int
+	ArithOnly    int
 }
 
 func (e *Exec) stop(kind, format string, a ...interface{}) {
@@ -321,37 +329,41 @@ func hasStrings(ts []*Term) bool {
 	return false
 }
 
-// solveOpen decides satisfiability of the given assertions and leaves the
-// solver scope open.  Stage A: SMT-LIB strings, no length bound, short limit.
-// Stage B (only when A is unknown and strings occur): bounded character-vector
-// encoding with every string variable at most StrLen bytes.
-func (e *Exec) solveOpen(asserts []*Term, declare []*Term) string {
+// solveOpen decides satisfiability of the given assertions and leaves exactly
+// one solver scope open.
+//
+//	Stage B (first, when strings occur): bounded character-vector encoding,
+//	  every string variable at most StrLen bytes.  "sat" is definitive (a
+//	  bounded model is a model); "unsat" holds for strings up to the bound.
+//	Stage A: SMT-LIB strings without length bound.  Tried after a bounded
+//	  "unsat" of a proof obligation to upgrade it to an unbounded verdict
+//	  (short limit), and as the only stage when B is not applicable.
+func (e *Exec) solveOpen(asserts []*Term, declare []*Term, upgrade bool) string {
 	e.modelCtx = nil
 	strs := hasStrings(asserts)
-	limitA := e.h.QueryTimeout
-	if strs {
-		limitA = e.h.StageATimeout
+	stageA := func(limit int) string {
+		e.solver.Push()
+		for _, d := range declare {
+			e.solver.declareFor(d)
+		}
+		for _, c := range asserts {
+			e.solver.Assert(c)
+		}
+		return e.solver.CheckT(limit)
 	}
-	e.solver.Push()
-	for _, d := range declare {
-		e.solver.declareFor(d)
+	if !strs {
+		return stageA(e.h.QueryTimeout)
 	}
-	for _, c := range asserts {
-		e.solver.Assert(c)
-	}
-	r := e.solver.CheckT(limitA)
-	if r != "unknown" || !strs {
-		if strs {
+	all, ctx, err := translateBounded(e.h.StrLen, asserts, declare)
+	if err != nil {
+		e.res.BoundedNA++
+		r := stageA(e.h.QueryTimeout)
+		if r == "unknown" {
+			e.res.Inconcl = append(e.res.Inconcl, "bounded encoding not applicable ("+err.Error()+") and unbounded query unknown")
+		} else {
 			e.res.StageA++
 		}
 		return r
-	}
-	e.solver.Pop()
-	all, ctx, err := translateBounded(e.h.StrLen, asserts, declare)
-	if err != nil {
-		e.res.Inconcl = append(e.res.Inconcl, "bounded encoding not applicable: "+err.Error())
-		e.solver.Push()
-		return "unknown"
 	}
 	e.solver.Push()
 	seen := map[string]bool{}
@@ -361,26 +373,151 @@ func (e *Exec) solveOpen(asserts []*Term, declare []*Term) string {
 			e.solver.Assert(c)
 		}
 	}
-	r = e.solver.CheckT(e.h.QueryTimeout)
-	if r != "unknown" {
+	if !e.w.crossB {
+		e.solver.Only("z3new")
+	}
+	r := e.solver.CheckT(e.h.QueryTimeout)
+	switch r {
+	case "sat":
 		e.res.StageB++
 		e.modelCtx = ctx
+		return r
+	case "unsat":
+		if upgrade {
+			e.solver.Pop()
+			if stageA(e.h.StageATimeout) == "unsat" {
+				e.res.StageA++
+				return "unsat"
+			}
+		}
+		e.res.StageB++
+		e.res.BoundedUnsat++
+		return "unsat"
+	}
+	// bounded query unknown: last resort is the unbounded encoding
+	e.solver.Pop()
+	r = stageA(e.h.QueryTimeout)
+	if r != "unknown" {
+		e.res.StageA++
 	}
 	return r
+}
+
+// abstractStrings replaces every Int/Bool-sorted term whose operator belongs to
+// the string theory by a fresh symbol (same text, same symbol); str.len
+// symbols are non-negative.  The result over-approximates the models.
+func abstractStrings(t *Term, names map[string]*Term, side *[]*Term) *Term {
+	if t.sort == SStr || t.sort == SRe {
+		return t
+	}
+	if t.isConst() || t.op == "var" || t.op == "raw" {
+		return t
+	}
+	isStrOp := strings.HasPrefix(t.op, "str.")
+	if !isStrOp && (t.op == "=" || t.op == "ite") {
+		for _, a := range t.args {
+			if a.sort == SStr {
+				isStrOp = true
+			}
+		}
+	}
+	if !isStrOp && strings.HasPrefix(t.op, "uf:") {
+		for _, a := range t.args {
+			if a.sort == SStr {
+				isStrOp = true
+			}
+		}
+	}
+	if isStrOp {
+		key := t.String()
+		if v, ok := names[key]; ok {
+			return v
+		}
+		v := mkVar(fmt.Sprintf("abs!%d", len(names)), t.sort)
+		names[key] = v
+		if t.op == "str.len" {
+			*side = append(*side, mkGe(v, mkInt(0)))
+		}
+		if t.op == "str.indexof" {
+			*side = append(*side, mkGe(v, mkInt(-1)))
+		}
+		return v
+	}
+	args := make([]*Term, len(t.args))
+	changed := false
+	for i, a := range t.args {
+		args[i] = abstractStrings(a, names, side)
+		if args[i] != a {
+			changed = true
+		}
+	}
+	if !changed {
+		return t
+	}
+	n := *t
+	n.args = args
+	n.key = ""
+	if t.op == "int2bv" || t.op == "extract" || t.op == "zero_extend" || t.op == "sign_extend" {
+		n.key = strings.Replace(t.String(), t.args[0].String(), args[0].String(), 1)
+	}
+	return &n
+}
+
+func (e *Exec) arithOnlyUnsat(neg []*Term) bool {
+	as := append(e.selectPC(neg, sliceExact), neg...)
+	if !hasStrings(as) {
+		return false // the normal path is already string-free
+	}
+	names := map[string]*Term{}
+	var side []*Term
+	var out []*Term
+	for _, a := range as {
+		out = append(out, abstractStrings(a, names, &side))
+	}
+	out = append(out, side...)
+	e.solver.Push()
+	for _, c := range out {
+		e.solver.Assert(c)
+	}
+	e.solver.Only("z3new")
+	r := e.solver.CheckT(3000)
+	e.solver.Pop()
+	return r == "unsat"
 }
 
 // openQuery asks whether pc ∧ extra is satisfiable and leaves the solver
 // scope open (for model extraction); closeQuery must follow.
 func (e *Exec) openQuery(extra []*Term, mode int) string {
 	as := append(e.selectPC(extra, mode), extra...)
-	return e.solveOpen(as, nil)
+	return e.solveOpen(as, nil, e.upgrade)
 }
 
 func (e *Exec) closeQuery() { e.solver.Pop() }
 
 func (e *Exec) sat(extra []*Term, mode int) string {
-	r := e.openQuery(extra, mode)
+	as := append(e.selectPC(extra, mode), extra...)
+	// verdict cache: re-execution replays the same queries along shared prefixes
+	keys := make([]string, len(as))
+	for i, a := range as {
+		keys[i] = a.String()
+	}
+	sort.Strings(keys)
+	h := sha256.New()
+	fmt.Fprintf(h, "%d|%v|", e.h.StrLen, e.upgrade)
+	for _, k := range keys {
+		h.Write([]byte(k))
+		h.Write([]byte{0})
+	}
+	key := string(h.Sum(nil))
+	if v, ok := e.w.qcache.Load(key); ok {
+		e.res.CacheHits++
+		return v.(string)
+	}
+	r := e.solveOpen(as, nil, e.upgrade)
 	e.closeQuery()
+	if r != "unknown" {
+		e.w.qcache.Store(key, r)
+	}
 	return r
 }
 
@@ -401,7 +538,7 @@ func (e *Exec) openModelQuery(extra []*Term) string {
 		as = append(as, p.t)
 	}
 	as = append(as, extra...)
-	return e.solveOpen(as, decl)
+	return e.solveOpen(as, decl, false)
 }
 
 // modelValues evaluates terms in the model of the open query.
@@ -575,6 +712,21 @@ func (e *Exec) fresh(prefix string, s Sort) *Term {
 	return mkVar(fmt.Sprintf("%s!%d", sanitize(prefix), e.freshCtr), s)
 }
 
+// memoFresh returns the fresh variable introduced earlier on this path for
+// the same defining key (so that repeated calls of a pure function on the
+// same arguments build syntactically identical terms), or creates it.
+func (e *Exec) memoFresh(key string, prefix string, s Sort) (*Term, bool) {
+	if e.memo == nil {
+		e.memo = map[string]*Term{}
+	}
+	if v, ok := e.memo[key]; ok {
+		return v, false
+	}
+	v := e.fresh(prefix, s)
+	e.memo[key] = v
+	return v, true
+}
+
 func sanitize(s string) string {
 	var b strings.Builder
 	for _, r := range s {
@@ -598,21 +750,40 @@ func (e *Exec) check(kind, id, msg string, cond *Term) {
 		e.res.Trivial++
 		return
 	}
+	if v, ok := e.known(cond); ok && v {
+		e.res.Discharged++
+		e.res.Trivial++
+		return
+	}
 	neg := []*Term{mkNot(cond)}
 	if cond.isFalse() {
 		neg = nil
 	}
 	if neg != nil {
-		// stage 1: weaker (sliced) assumptions; unsat is already a proof
-		if e.sat(neg, sliceHeur) == "unsat" {
+		// stage 0: string theory abstracted away (every string-theory atom becomes an
+		// unconstrained symbol): pure arithmetic, unsat is already a proof
+		if e.arithOnlyUnsat(neg) {
 			e.res.Discharged++
+			e.res.ArithOnly++
 			return
+		}
+		// stage 1: weaker (sliced) assumptions; unsat is already a proof
+		if len(e.selectPC(neg, sliceHeur)) != len(e.selectPC(neg, sliceExact)) {
+			e.upgrade = e.h.Upgrade
+			r1 := e.sat(neg, sliceHeur)
+			e.upgrade = false
+			if r1 == "unsat" {
+				e.res.Discharged++
+				return
+			}
 		}
 	}
 	r := "sat"
 	if neg != nil {
 		// stage 2: exact slice decides; stage 3 (below) produces the full model
+		e.upgrade = e.h.Upgrade
 		r = e.sat(neg, sliceExact)
+		e.upgrade = false
 	}
 	if r == "sat" {
 		r = e.openModelQuery(neg)
@@ -1398,6 +1569,14 @@ func (e *Exec) convert(v Value, from, to types.Type) Value {
 				}
 			case *FloatVal:
 				return mkInt(int64(x.f))
+			case *OpaqueVal:
+				switch x.name {
+				case "durseconds":
+					// int(d.Seconds()) == d / 1e9 (truncated) for |d| < 2^53 ns
+					return mkQuo(x.data.(*Term), mkInt(1000000000))
+				case "float-of-int":
+					return x.data.(*Term)
+				}
 			}
 		case t.Info()&types.IsFloat != 0:
 			switch x := v.(type) {
@@ -1694,12 +1873,15 @@ func (e *Exec) next(it *IterVal, isString bool, ins *ssa.Next) Value {
 			return &TupleVal{[]Value{tTrue, pos, e.runeVal(c)}}
 		}
 		// non-ASCII lead byte: over-approximate the decoded rune and its width
-		r := e.fresh("rune", SInt)
-		w := e.fresh("runew", SInt)
-		e.assume(mkAnd(mkGe(r, mkInt(0x80)), mkLe(r, mkInt(0x10ffff)),
-			mkGe(w, mkInt(1)), mkLe(w, mkInt(4)), mkLe(mkAdd(it.pos, w), n),
-			mkImplies(mkGt(w, mkInt(1)), mkNot(mkEq(r, mkInt(0xfffd)))),
-		))
+		mk := "rune|" + it.str.String() + "|" + it.pos.String()
+		r, isNew := e.memoFresh(mk, "rune", SInt)
+		w, _ := e.memoFresh(mk+"|w", "runew", SInt)
+		if isNew {
+			e.assume(mkAnd(mkGe(r, mkInt(0x80)), mkLe(r, mkInt(0x10ffff)),
+				mkGe(w, mkInt(1)), mkLe(w, mkInt(4)), mkLe(mkAdd(it.pos, w), n),
+				mkImplies(mkGt(w, mkInt(1)), mkNot(mkEq(r, mkInt(0xfffd)))),
+			))
+		}
 		it.pos = mkAdd(it.pos, w)
 		return &TupleVal{[]Value{tTrue, pos, e.runeVal(r)}}
 	}
